@@ -342,9 +342,9 @@ pub fn run(ctx: &mut Ctx) {
         }
     }
 
-    let n = ctx.scale(400usize, 6000usize);
+    let n = ctx.scale(2500usize, 30_000usize);
     ctx.sub_async(&rt, "faulted-workload", n, 48, case_strategy(24, 16 * 1024), checker(limits));
-    let n_big = ctx.scale(12usize, 200usize);
+    let n_big = ctx.scale(60usize, 600usize);
     ctx.sub_async(&rt, "large-workload", n_big, 12, case_strategy(240, 16 * 1024), checker(limits));
     rt.shutdown_timeout(std::time::Duration::from_secs(2));
 }
